@@ -329,7 +329,9 @@ namespace AIToolbox::MDP {
         // Create reciprocal for fast division
         const double visitSumReciprocal = 1.0 / visitSum;
 
-        if constexpr (IsExperienceEigen<E>) {
+        // The row assignment below only exists when the experience stores its
+        // visits in a sparse table; a dense experience takes the manual path.
+        if constexpr (IsExperienceEigen<E> && requires { transitions_[a].row(s) = experience_.getVisitsTable(a).row(s).template cast<double>() * visitSumReciprocal; }) {
             transitions_[a].row(s) = experience_.getVisitsTable(a).row(s).template cast<double>() * visitSumReciprocal;
         } else {
             // Normalize
